@@ -399,6 +399,21 @@ def mkEnv (consts params : List (String × K)) (xv : K) : String → K :=
 def bound (consts params : List (String × K)) (a : String) : Bool :=
   a == "x" || params.any (fun p => "p." ++ p.1 == a) || consts.any (fun p => "c." ++ p.1 == a)
 
+/-- the keyword parameters `_convert` receives: what the caller supplied, then the defaults of
+    the signature (a look-up takes the first hit, so a supplied value wins) -/
+def effectiveParams [OfBits K] (reg : List EquivRec) (equivalence : Option String)
+    (supplied : List (String × K)) : List (String × K) :=
+  supplied ++ (match equivalence.bind (findEquiv reg) with
+    | some e => e.params.map (fun q => (q.1, (OfBits.ofBits q.2 : K)))
+    | none => [])
+
+def acceptsParams (reg : List EquivRec) (equivalence : Option String) (names : List String) : Bool :=
+  let accepted : List (String × Nat) :=
+    match equivalence.bind (findEquiv reg) with
+    | some e => e.params
+    | none => []
+  names.all (fun n => accepted.any (fun q => q.1 == n))
+
 /-- the reading, in `target`, of the quantity equivalent to the reading `xv` in `u`.
     `supplied` are the keyword arguments of the call (`mu=`, `gamma=`); they reach `_convert`
     only on the `via` route, where a keyword `_convert` does not accept is a `TypeError`
@@ -416,13 +431,9 @@ def convertValue [OfBits K] (pre : Prefixes K) (t : Lut K) (reg : List EquivRec)
   | .error e => .error e
   | .ok .plain => toValue pre t u xv target
   | .ok (.via f) =>
-    let accepted : List (String × Nat) :=
-      match equivalence.bind (findEquiv reg) with
-      | some e => e.params
-      | none => []
-    if !(supplied.all (fun p => accepted.any (fun q => q.1 == p.1))) then .error .TypeError
+    if !(acceptsParams reg equivalence (supplied.map (·.1))) then .error .TypeError
     else
-      let params := supplied ++ accepted.map (fun q => (q.1, (OfBits.ofBits q.2 : K)))
+      let params := effectiveParams reg equivalence supplied
       if !(f.atoms.all (bound consts params)) then .error .Other
       else if u.offset != 0 && f.xInArith then .error .InvalidUnitOperation
       else
@@ -432,6 +443,16 @@ def convertValue [OfBits K] (pre : Prefixes K) (t : Lut K) (reg : List EquivRec)
         toValue pre t mid y target
 
 end numbers
+
+/-! ### an exact carrier for concrete witnesses: ℚ with integer powers only (enough for chains
+    without `sqrt` and fractional powers, e.g. `σ x⁴`) -/
+namespace RatCarrier
+
+scoped instance : RPow Rat := ⟨fun x q => if q.den = 1 then zpowK x q.num else 0⟩
+scoped instance : HasSqrt Rat := ⟨fun _ => 0⟩
+scoped instance : OfRat Rat := ⟨fun q => q⟩
+
+end RatCarrier
 
 /-! ### whole-table checks (decided by the kernel in `UnytProofs/C09.lean`) -/
 
